@@ -103,6 +103,20 @@ def generate(rng, tier, seed):
                         return "KCV is not the leftmost bytes of E(0)"
                 c.pred("kcv = leftmost bytes of the encryption of a zero block", p)
                 yield c
+    for ks in (8, 16, 24):
+        for order in ([8, 7, 6, 5, 4, 3, 2, 1, 0], [3, None, 2, 8, 1, None], [1, 2, 3, None, 8]):
+            key = rb(rng, ks)
+            c = Case("kcv:same-key-sequence", {"key": ks, "order": str(order)})
+            i = c.line(f"cipher\ttdes_e\t{enc_b(key)}\t{enc_b(bytes(8))}")
+            for length in order:
+                r = c.call("des.generate_kcv", key, length) if length is not None else c.call("des.generate_kcv", key, op="generate_kcv_default")
+
+                def p(rep, r=r, i=i, length=length):
+                    full = bytes.fromhex(rep[i].split("\t")[1][2:])
+                    if not r.ok or r.value != full[: (2 if length is None else length)]:
+                        return f"KCV for length {length} is {r.value.hex() if r.ok else r.err}, expected the leftmost bytes of {full.hex()}"
+                c.pred("kcv = leftmost bytes of E(0), whatever was asked before", p)
+            yield c
     for kl in range(0, 41):
         c = Case("kcv:keylen", {"len": kl})
         r = c.call("des.generate_kcv", rb(rng, kl), 3)
